@@ -246,6 +246,7 @@ func (ex *Exec) setResult(c *ssa.Call, r Val) {
 // unknownCall: no contract, not modelled: anything may happen (jsEffect), result unconstrained.
 func (ex *Exec) unknownCall(c *ssa.Call, what string) {
 	ex.e.note("abstracted call (jsEffect, result unconstrained): " + what)
+	ex.forkUnknownPanic(c.Pos())
 	ex.st = ex.jsEffect(ex.st)
 	ex.setResult(c, ex.freshResult(c))
 }
@@ -353,6 +354,7 @@ func (ex *Exec) applyContract(cc *Contract, c *ssa.Call, args []Val, calleeName 
 		ex.obligs[len(ex.obligs)-1].Clause = cl
 		ex.obligs[len(ex.obligs)-1].Callee = calleeName
 	}
+	ex.forkContractPanic(cc, m, pre, c.Pos())
 	// frame
 	post := ex.havocAssigns(cc, m, pre)
 	ex.st = post
@@ -368,18 +370,7 @@ func (ex *Exec) applyContract(cc *Contract, c *ssa.Call, args []Val, calleeName 
 	}
 	for _, cl := range cc.Ensures {
 		// ghost/capture parameters of the callee are internal to it: unknown here
-		if cl.Fn != nil {
-			for i, nm := range cl.Names {
-				if _, ok := m[nm]; !ok {
-					for _, gp := range cc.Ghost {
-						if gp.Name == nm {
-							m[nm] = ex.env.freshVal("ghost_"+nm, cl.Fn.Params[i].Type())
-							ex.flushFacts()
-						}
-					}
-				}
-			}
-		}
+		ex.fillGhosts(cc, cl, m)
 		ex.assumeHere(ex.clauseTerm(cl, m, post, pre, false))
 	}
 	ex.setResult(c, res)
@@ -562,6 +553,18 @@ func (ex *Exec) builtinCall(name string, c *ssa.Call) {
 		dom, _ := e.mapHeaps(mt)
 		ex.st.set(dom, fmt.Sprintf("(store %s %s (store (select %s %s) %s false))", ex.st.get(dom), m.T, ex.st.get(dom), m.T, k.T))
 	case "recover":
+		if ex.inl != nil {
+			if ex.inl.rec != nil {
+				ex.setResult(c, *ex.inl.rec)
+			} else {
+				ex.setResult(c, Val{T: "nilbox", S: "Box"})
+			}
+			return
+		}
+		if v, ok := ex.params["recovered"]; ok {
+			ex.setResult(c, v)
+			return
+		}
 		ex.setResult(c, Val{T: "nilbox", S: "Box"})
 		e.note("recover() outside a deferred function modelled as nil")
 	case "print", "println":
